@@ -50,7 +50,8 @@ impl Object for Encoding {
                             }
                             Primitive::Name(name) => {
                                 differences.insert(gid, name);
-                                gid += 1;
+                                // codes come from the file (-1 is u32::MAX here): do not overflow
+                                gid = gid.wrapping_add(1);
                             }
                             _ => bail!("Unknown part primitive in dictionary: {:?}", part),
                         }
